@@ -36,8 +36,11 @@ class Inconclusive(Exception):
 class Repo:
     """Read-only, parse-only view of the repository working tree."""
 
-    def __init__(self, root: Optional[str] = None) -> None:
+    def __init__(self, root: Optional[str] = None, overlay: Optional[Dict[str, str]] = None) -> None:
         self.root = Path(root or os.environ.get("VERIF_REPO", "/repo")).resolve()
+        # overlay: relative path -> replacement text (used by the selftest to
+        # analyse a variant of the tree without touching /repo)
+        self.overlay: Dict[str, str] = dict(overlay or {})
         self._src: Dict[str, str] = {}
         self._py: Dict[str, ast.Module] = {}
         self.cache: Dict[str, Any] = {}
@@ -49,6 +52,8 @@ class Repo:
         return (self.root / rel).exists()
 
     def src(self, rel: str) -> str:
+        if rel in self.overlay:
+            return self.overlay[rel]
         if rel not in self._src:
             p = self.root / rel
             if not p.exists():
